@@ -13,6 +13,8 @@ const M: &str = "C09";
 pub struct C09 {
     truth: Truth,
     model: SetModel,
+    /// Where the SRT endpoint is, by the monitor's own observation.
+    client: Option<std::net::SocketAddr>,
 }
 
 impl C09 {
@@ -46,7 +48,27 @@ impl Monitor for C09 {
             self.model.sets.insert(c.conn_id, real);
         }
 
-        let addr_known = ctx.world.last_client_addr.is_some();
+        // "that client" is the monitor's own notion: the source of the last non-empty datagram the
+        // listener handed over (a client step handles its datagram before it drains the uplinks)
+        if let crate::lsim::StepKind::Client(Some(b)) = ctx.kind
+            && !b.is_empty()
+        {
+            if self.client.is_some_and(|c| c != ctx.client_src) {
+                out.probe("c09.client_address_changed");
+            }
+            self.client = Some(ctx.client_src);
+        }
+        let addr_known = self.client.is_some();
+        for co in ctx.client_out {
+            if Some(co.target) != self.client {
+                out.violate(
+                    &format!("{M}.relay"),
+                    "wrong_client",
+                    ctx.idx,
+                    format!("a {}-byte datagram (type {:x?}) was sent to {} via {}, the SRT endpoint is at {:?}", co.bytes.len(), ptype(&co.bytes), co.target, co.via, self.client),
+                );
+            }
+        }
         // ---- relay ledger ----
         let processed: Vec<&(u64, Vec<u8>)> = ctx
             .uplink
